@@ -19,6 +19,9 @@
 //	sv      what the harness computed with the standard library only:
 //	        <sig hex>:<one 0/1 per key: sig valid for the text before the last dot>, or ~
 //	hp, pp  <decoded bytes hex>=<canonical parse | !> of the header / payload part, or ~
+//	        (the parse is what structpb.Struct.UnmarshalJSON said; the model parses the
+//	        bytes ITSELF - coq/model/Json.v - and its parse is compared with this one on
+//	        every case; the direct oracle reads this one)
 //	tag     generator name and, when known by construction, the expected outcome
 //
 //	C09|X|..., C09|I|...   JWK export / import on key material: see jwk.go
@@ -507,6 +510,9 @@ func class(in, obs string) string {
 	tag := f[len(f)-1]
 	if i := strings.Index(tag, ":"); i >= 0 {
 		tag = tag[:i]
+	}
+	if strings.HasPrefix(tag, "jt-") { // JSON text layer: one class per (place, family, outcome)
+		return "T/" + tag[3:] + "/" + res
 	}
 	alg := ""
 	if ks := parseKeys(f[3]); len(ks) > 0 {
